@@ -14,7 +14,7 @@ pub fn def() -> CheckDef {
         meta: CheckMeta {
             id: "C13",
             level: "exploration",
-            rule: "orchestrations of 2-3 worker processes on one path (file existing or not yet created); each worker opens the database, reads all marker keys, commits its own marker, holds the database for a generated time and closes. Generated: start order and offsets (0-40 ms), hold times (0-25 ms), and per worker an optional gate at a libc boundary (before open64, after open64 returned, the 1st/2nd write of the creator, fsync, mmap64, close) at which the LD_PRELOAD shim parks the process until the orchestrator releases it; all gate choices x release orders for two processes, sampled for three. A worker that does not reach its gate within a timeout is taken to be waiting for the kernel lock and the orchestrator moves on: timing decides which interleaving is produced, never the verdict. Oracle from CLOCK_MONOTONIC timestamps taken by the workers (open returned / about to close): the intervals are pairwise disjoint; every worker sees the marker of every worker whose interval ended before its own began; every worker exits 0 (an Err or panic from open is a failure to wait). Non-trivial = orchestration in which a second open was issued while another process held the database or was creating it. Distinct = hash of the orchestration.",
+            rule: "orchestrations of 2-3 worker processes on one path (file existing or not yet created); each worker opens the database, reads all marker keys, commits its own marker, holds the database for a generated time and closes. Generated: start order and offsets (0-40 ms), hold times (0-25 ms), and per worker an optional gate at a libc boundary (before open64, after open64 returned, before / after the file-size query (statx), the 1st/2nd write of the creator, fsync, mmap64, close) at which the LD_PRELOAD shim parks the process until the orchestrator releases it; all gate choices x release orders for two processes, sampled for three. A worker that does not reach its gate within a timeout is taken to be waiting for the kernel lock and the orchestrator moves on: timing decides which interleaving is produced, never the verdict. Oracle from CLOCK_MONOTONIC timestamps taken by the workers (open returned / about to close): the intervals are pairwise disjoint; every worker sees the marker of every worker whose interval ended before its own began; every worker exits 0 (an Err or panic from open is a failure to wait). Non-trivial = orchestration in which a second open was issued while another process held the database or was creating it. Distinct = hash of the orchestration.",
             assumptions: &[
                 "flock itself is a raw syscall invisible to the shim; its effect is observed",
                 "three processes are sampled, not enumerated",
@@ -257,7 +257,7 @@ pub fn judge(case: &C13Case, o: &Orchestration) -> Option<Failure> {
 }
 
 pub fn gates(creator: bool) -> Vec<String> {
-    let mut g: Vec<String> = vec!["".into(), "open:1".into(), "openret:1".into(), "mmap:1".into(), "fsync:1".into(), "close:1".into(), "write:1".into()];
+    let mut g: Vec<String> = vec!["".into(), "open:1".into(), "openret:1".into(), "stat:1".into(), "statret:1".into(), "mmap:1".into(), "fsync:1".into(), "close:1".into(), "write:1".into()];
     if creator {
         g.push("write:2".into());
         g.push("fsync:2".into());
@@ -302,7 +302,7 @@ fn shard(ctx: &ShardCtx, known: &Known) -> ShardOut {
         let gs = gates(!exists);
         let procs: Vec<ProcSpec> = (0..n)
             .map(|i| ProcSpec {
-                gate: if rng.chance(1, 2) { String::new() } else { gs[rng.below(if i == 0 { gs.len() } else { 7 } as u64) as usize].clone() },
+                gate: if rng.chance(1, 2) { String::new() } else { gs[rng.below(if i == 0 { gs.len() } else { 9 } as u64) as usize].clone() },
                 hold_ms: rng.below(25) as u32,
                 start_delay_ms: rng.below(40) as u32 * (i > 0) as u32,
             })
